@@ -179,9 +179,9 @@ pub fn plan_for(prop: &str, tier: &str) -> Plan {
         }
         "C11" => {
             p.components = vec!["quorum"];
-            p.scenarios = if q { sc(&[("snap-gc", 0), ("member-gc", 0), ("snap-gc", 1), ("repl-gc", 1), ("fig8-div-gc", 1)]) } else { sc(&[("snap-gc", 0), ("member-gc", 0), ("snap-gc", 1), ("repl-gc", 1), ("fig8-div-gc", 1), ("fig8-div-gc", 2), ("snap-gc", 2), ("repl-gc", 2), ("member-gc", 1), ("member-joint-gc", 0)]) };
-            p.required_stats = vec![Stat::GroupCommitChecked];
-            p.explanation = "complete enumeration of voter sets, acked-index vectors, vote maps and group assignments against the definitional quorum arithmetic; plus cluster scenarios with group commit on (snapshot install, replication, Figure-8 hand-over) in which the tracker must keep the setting, assign_commit_groups (unknown ids listed first) must reach every tracked member, every commit is checked against the durable quorum rule and, when every voter has a group, against durability in at least two groups".into();
+            p.scenarios = if q { sc(&[("snap-gc", 0), ("member-gc", 0), ("snap-gc", 1), ("repl-gc", 1), ("fig8-div-gc", 1), ("elect", 1), ("member-joint", 1), ("read-swap", 1), ("elect-pv", 1)]) } else { sc(&[("snap-gc", 0), ("member-gc", 0), ("snap-gc", 1), ("repl-gc", 1), ("fig8-div-gc", 1), ("fig8-div-gc", 2), ("snap-gc", 2), ("repl-gc", 2), ("member-gc", 1), ("elect", 1), ("member-joint", 1), ("read-swap", 1), ("elect-pv", 1), ("member-joint-gc", 0), ("elect", 2), ("member-joint", 2)]) };
+            p.required_stats = vec![Stat::GroupCommitChecked, Stat::TalliesChecked];
+            p.explanation = "complete enumeration of voter sets, acked-index vectors, vote maps and group assignments against the definitional quorum arithmetic; plus cluster scenarios with group commit on (snapshot install, replication, Figure-8 hand-over) in which the tracker must keep the setting, assign_commit_groups (unknown ids listed first) must reach every tracked member, every commit is checked against the durable quorum rule and, when every voter has a group, against durability in at least two groups; in election and joint-membership scenarios every election win is checked against the vote grants actually released for that term (a majority of each voter set of the winner's configuration)".into();
             p.assumptions = vec!["value bounds listed in the run statistics (config sizes 0-9, indexes 0-3, groups 0-2)".into()];
         }
         "C19" => {
